@@ -1,0 +1,20 @@
+//go:build verif
+
+// Contracts for package logger, read by /verif/govc (comment-only: no declarations, no effect on any build).
+// Calls of the logging helpers are skipped by the verifier as effect-free and non-panicking (A-LOG). For the helpers that
+// format values taken from received messages - ids and block hashes of any length - "non-panicking" is proved here instead
+// of assumed: every handler evaluates them on the sender id of a message before any check.
+
+package logger
+
+//@ func MemberIdToStr
+//@   props C12
+//@   ensures [abbreviated] len(result) <= 6
+
+//@ func blockHashToStr
+//@   props C12
+//@   ensures [abbreviated] len(result) <= 6
+
+//@ func (*_LC).String
+//@   props C12
+//@   safety all
